@@ -350,7 +350,10 @@ def gen_struct(rng, view, cfg, name, *, depth=2, kind=None, hashable=False, futu
         d["flags"] = flags
         if rng.random() < 0.5:
             _add_defaults(rng, fields)
-    elif kind == "namedtuple":
+    elif kind in ("plain", "slotsclass"):
+        if rng.random() < 0.6:
+            d["sigonly"] = True
+    if kind == "namedtuple":
         if rng.random() < 0.4:
             _add_defaults(rng, fields)
             for f in fields:
